@@ -423,6 +423,9 @@ type Action struct {
 	Token    *string
 	Synth    bool // (request stage) do not forward: answer with Body/MsgType/Status directly
 	NoHeader bool
+	// response stage only: raw header overrides ("" deletes the header) and a declared Content-Length
+	Headers map[string]string
+	CLen    *int64
 }
 
 // Link connects a client to a Service in-process.
@@ -431,6 +434,7 @@ type Link struct {
 	OnRequest  func(ex *Exchange) *Action // called before the handler
 	OnResponse func(ex *Exchange) *Action // called after the handler
 	MaxContent int64                      // Transport.MaxContentLength (0: library default)
+	lastAction *Action
 	mu         sync.Mutex
 	Log        []*Exchange
 }
@@ -546,6 +550,7 @@ func (l *Link) RoundTrip(req *http.Request) (*http.Response, error) {
 	deliver := rb
 	if l.OnResponse != nil {
 		if a := l.OnResponse(ex); a != nil {
+			l.lastAction = a
 			if a.DropErr != nil {
 				ex.Dropped = "response"
 				return nil, a.DropErr
@@ -569,6 +574,20 @@ func (l *Link) RoundTrip(req *http.Request) (*http.Response, error) {
 	resp.Body = io.NopCloser(bytes.NewReader(deliver))
 	resp.ContentLength = int64(len(deliver))
 	resp.Header.Set("Content-Length", strconv.Itoa(len(deliver)))
+	if l.OnResponse != nil && l.lastAction != nil {
+		for k, v := range l.lastAction.Headers {
+			if v == "" {
+				resp.Header.Del(k)
+			} else {
+				resp.Header.Set(k, v)
+			}
+		}
+		if l.lastAction.CLen != nil {
+			resp.ContentLength = *l.lastAction.CLen
+			resp.Header.Set("Content-Length", strconv.FormatInt(*l.lastAction.CLen, 10))
+		}
+		l.lastAction = nil
+	}
 	return resp, nil
 }
 
